@@ -14,7 +14,7 @@ PID = "C11"
 PROPS = [("theories/RawKV/Props.v", "RawKV.Props")]
 AREAS = ["theories/RawKV"]
 THEOREM_OF = {"sequence": "C11_sequence", "scan": "C11_scan", "rscan": "C11_reverse_scan", "drange": "C11_delete_range / C11_delete_range_interrupted", "cksum": "C11_checksum",
-              "bget": "C11_batch_get_aligned", "bput": "C11_batch_put_last_wins / C11_batch_put_partial", "bdel": "C11_batch_delete / C11_batch_delete_partial",
+              "bget": "C11_batch_get_aligned", "bput": "C11_batch_put_last_wins / C11_batch_put_partial_failure", "bdel": "C11_batch_delete / C11_batch_delete_partial_failure",
               "cas": "C11_cas", "put": "C11_get_put_delete", "get": "C11_get_put_delete", "del": "C11_get_put_delete"}
 
 # ---------------------------------------------------------------- reference (independent of the Coq model)
@@ -158,8 +158,8 @@ class Ref:
 
 def check_failed_call(ref, name, a, cf, lays, bats):
     """a batch put / batch delete / delete-range whose i-th request was answered with an error:
-    the call reports the error, and what it leaves behind is what C11_batch_put_partial /
-    C11_batch_delete_partial / C11_delete_range_interrupted allow. The reference map takes the
+    the call reports the error, and what it leaves behind is what C11_batch_put_partial_failure /
+    C11_batch_delete_partial_failure / C11_delete_range_interrupted allow. The reference map takes the
     effect of the requests that were served (observed at the wire)."""
     fails = []
     m = ref.cf(cf)
